@@ -76,6 +76,12 @@ class C17Hook:
                 run.violation("C17-model", ts.ti, oi, d, exp, act)
             self._shape(run, ts, oi, si, s["snap"])
             self.combos.add(h48([text, opts, cons.get("k"), oi > 0 or si > 0]))
+            gold = (run.spec.get("golden") or {}).get(str(oi)) if si == 0 and s["status"] == "ok" else None
+            if gold is not None:
+                self.stats["golden_comparisons"] = self.stats.get("golden_comparisons", 0) + 1
+                d = engine.first_diff(gold, s["snap"], "$golden.envelopes")
+                if d:
+                    run.violation("C17-golden", ts.ti, oi, d, gold, s["snap"])
 
     def check_cli(self, run, ts, oi, op, rec):
         self.stats["cli_runs"] += 1
@@ -133,6 +139,33 @@ def _docs_for_enum():
     return list(workload.pool()) + list(workload.corpus())
 
 
+def _golden(name):
+    """Reference envelopes of the acceptance corpus (the project's own contract, compared by its Makefile):
+    {option-set index: expected envelopes of a fresh stream over ../testdata/<name>.feature}."""
+    import json
+    import os
+    base = os.path.join(REPO_PATH(), "testdata", name + ".feature")
+    out = {}
+
+    def load(kind):
+        fn = "%s.%s.ndjson" % (base, kind)
+        if not os.path.exists(fn):
+            return None
+        with open(fn, encoding="utf-8") as f:
+            return [json.loads(x) for x in f if x.strip()]
+
+    if name.startswith("good/"):
+        for oi, kind in ((2, "ast"), (1, "pickles"), (4, "source")):  # ALL_OPTS index: [s,a,p] bits 4,2,1
+            g = load(kind)
+            if g is not None:
+                out[str(oi)] = g
+    else:
+        g = load("errors")
+        if g is not None:
+            out["3"] = g  # --no-source
+    return out
+
+
 def enum_spec(index):
     docs = _docs_for_enum()
     di, variant = index // 2, index % 2
@@ -141,11 +174,15 @@ def enum_spec(index):
     if variant == 1:
         text = text.replace("\r\n", "\n").replace("\n", "\r\n")
     p, q = "/simfs/feat/%s.feature" % name.replace("/", "_"), "/simfs/feat/next_%s.feature" % nname.replace("/", "_")
+    golden = None
+    if variant == 0 and (name.startswith("good/") or name.startswith("bad/")):
+        p = "../testdata/%s.feature" % name  # the uri spelling of the reference files
+        golden = _golden(name)
     ops = [{"op": "stream", "s": i, "paths": [p]} for i in range(8)]
     ops.append({"op": "stream", "s": 7, "paths": [q, p, p]})
     ops.append({"op": "cli", "argv": [p, q]})
     ops.append({"op": "cli", "argv": ["--no-source", "--no-pickles", q, p]})
-    return {"scenario": "enum", "prop": "C17", "labels": [name, "crlf" if variant else "as-is"], "oracles": ["stable", "progress"],
+    return {"scenario": "enum", "prop": "C17", "labels": [name, "crlf" if variant else "as-is"], "oracles": ["stable", "progress"], "golden": golden or {},
             "cfg": {"flavour": "inc", "chunk_max": [0, 3][variant], "fs_seed": index, "salt": 1}, "gens": 0,
             "fs": {"files": {p: text, q: ntext}}, "tasks": [{"streams": [{"o": o} for o in ALL_OPTS], "ops": ops}]}
 
